@@ -140,6 +140,14 @@ class Gen:
             if g is None:
                 raise CannotGenerate(ty.name)
             return {"__opaque_native__": g(self)}
+        from .ty import EnumOf
+        if isinstance(ty, EnumOf):
+            # a member of the enum class, as its value string (native.build_value turns it into the real member)
+            try:
+                _, _, cls = native.resolve_target(ty.cls)
+                return self.rng.choice([m.value for m in cls])
+            except Exception as e:  # noqa
+                raise CannotGenerate(f"{ty.name}: {e!r}")
         raise CannotGenerate(repr(ty))
 
 
